@@ -8,7 +8,7 @@ Line protocol (one case per line):
     -> seq=<stages `|` groups `;` members `,`> strong= weak= all= scd= wcd= scd0= grp= self= ic= oc= ica= oca=
   chain <mode> <ldisc> ... | x=1/2 ...
        ldisc = name:in1,in2>out1=c;in1=a;in2=b,out2=c   mode = mdo | seqchain | mda | mdapar | mdags
-    -> in=<names> out=<names> mdas=<groups of the inner MDAs | -> val=<name=value,...>
+    -> in=<names> out=<names> mdas=<groups of the inner MDAs | -> flow=<data flow edges | -> val=<name=value,...>
   init <disc/defaults> ... | avail1,avail2     disc/defaults = name:ins>outs/def1,def2
     -> order=<indices> | E:value
 -/
@@ -105,7 +105,8 @@ def chainAnswer (mode : String) (lds : List LinDisc) (ext : List (String × Rat)
     else mdaChainEval seq run (requiresMda ds) (solveGroupBlock lds)
       (fun g => g.flatMap (outputsAt ds)) (mode = "mdapar") e0
   let mdas := if mode = "mdo" || mode = "seqchain" then "-" else showGroups (stronglyCoupledGroups ds seq true)
-  s!"in={showNames ins} out={showNames outs} mdas={mdas} val={showVals e1 (sortDedup (gr.1 ++ gr.2))}"
+  let flow := if mode = "mdo" || mode = "seqchain" then showEdges (disciplinesCouplings ds) else "-"
+  s!"in={showNames ins} out={showNames outs} mdas={mdas} flow={flow} val={showVals e1 (sortDedup (gr.1 ++ gr.2))}"
 
 def parseInitDisc (t : String) : Option (Disc × List String) :=
   match t.splitOn "/" with
